@@ -53,12 +53,16 @@ NoSng == [i \in 1..Ovr |-> "absent"]
 NoRep == [i \in 1..NF |-> <<>>]
 SngSpace == Bounded(S2, "absent", Ovr, SingleActive) \cup Bounded(S3, "absent", Ovr, EmptyActive)
 RepSpace == Bounded(R3, <<>>, NF, RepActive) \cup Bounded(R6, <<>>, NF, RichActive)
+\* with -o naming the option everything in the files is replaced: a smaller space is enough there
+RepSpaceOvr == Bounded(R3, <<>>, NF, IF RepActive < 4 THEN RepActive ELSE 4)
+               \cup Bounded(R6, <<>>, NF, IF RichActive < 2 THEN RichActive ELSE 2)
 JointSng == Bounded(S2, "absent", Ovr, JointActive)
 JointRep == Bounded(R3, <<>>, NF, JointActive)
 \* one option varied at a time (the two are independent in the statement), plus a joint space that would
 \* expose interference between them
 Init == \/ sng \in SngSpace /\ rep = NoRep /\ ovr = 0
-        \/ sng = NoSng /\ rep \in RepSpace /\ ovr \in OverrideLens
+        \/ sng = NoSng /\ rep \in RepSpace /\ ovr = 0
+        \/ sng = NoSng /\ rep \in RepSpaceOvr /\ ovr \in OverrideLens \ {0}
         \/ sng \in JointSng /\ rep \in JointRep /\ ovr \in OverrideLens
 Next == UNCHANGED vars
 Spec == Init /\ [][Next]_vars
